@@ -212,6 +212,34 @@ fn sub_modules(input: &[u8], st: &mut Stats) -> R {
         let disc = if asm.len() < want.len() { "shorter" } else if asm.len() > want.len() { "longer" } else { "different" };
         return Err(f("assemble-concatenation", disc, format!("assemble() has {} words, header ++ concat(instructions) has {}", asm.len(), want.len())));
     }
+    // assemble_into appends exactly assemble() (module, functions, blocks)
+    {
+        let mut into = vec![7u32, 8];
+        no_panic("Module::assemble_into", || m.assemble_into(&mut into))?;
+        if into[..2] != [7, 8] || into[2..] != asm[..] {
+            return Err(f("assemble-entry-points", "Module::assemble_into", "assemble_into(appending) differs from assemble()".into()));
+        }
+        let mut at = hl + globals.iter().map(|i| i.assemble().len()).sum::<usize>();
+        for (k, fu) in m.functions.iter().enumerate() {
+            let fa = no_panic("Function::assemble", || fu.assemble())?;
+            let mut fi = vec![9u32];
+            no_panic("Function::assemble_into", || fu.assemble_into(&mut fi))?;
+            if fi[1..] != fa[..] || asm.get(at..at + fa.len()) != Some(&fa[..]) {
+                return Err(f("assemble-entry-points", "Function::assemble", format!("function {}: Function::assemble / assemble_into is not the corresponding slice of Module::assemble", k)));
+            }
+            let mut bt = at + fu.def.as_ref().map(|d| d.assemble().len()).unwrap_or(0) + fu.parameters.iter().map(|p| p.assemble().len()).sum::<usize>();
+            for (bi, bl) in fu.blocks.iter().enumerate() {
+                let ba = no_panic("Block::assemble", || bl.assemble())?;
+                let mut bi2 = vec![];
+                no_panic("Block::assemble_into", || bl.assemble_into(&mut bi2))?;
+                if bi2 != ba || asm.get(bt..bt + ba.len()) != Some(&ba[..]) {
+                    return Err(f("assemble-entry-points", "Block::assemble", format!("function {} block {}: Block::assemble / assemble_into is not the corresponding slice of Module::assemble", k, bi)));
+                }
+                bt += ba.len();
+            }
+            at += fa.len();
+        }
+    }
     let parts = split(&asm[hl..]).ok_or_else(|| f("assemble-framing", "word-count", "assembled words do not tile".into()))?;
     if parts.len() != all.len() {
         return Err(f("assemble-count", "count", format!("{} assembled instructions, {} visited", parts.len(), all.len())));
@@ -274,7 +302,7 @@ pub fn finish(ctx: &Ctx) -> i32 {
     crate::engine::finish(
         ctx,
         Finish {
-            rule: "dr::Module values built directly from the public fields: header / memory model / function def / end / block label each present or absent, every section with 0-3 instructions, 0-3 functions x 0-3 blocks; every instruction carries a unique marker id and a varying word count; a quarter of the instructions carry a structural opcode (OpFunction, OpFunctionEnd, OpLabel, terminators, OpMemoryModel, OpLine ...) in whatever slot they happen to be stored; a third of the modules are sparse (most sections empty); a quarter of the instruction lists contain a run of 2-6 identical instructions. Oracle: own traversal written from the field list; all_inst_iter equals it; global_inst_iter is the prefix before the first function; Function::all_inst_iter is the k-th slice; each _mut traversal visits the same sequence and a mutation through it is seen by the read-only one at the same position; assemble() == header words ++ concat(assemble of each visited instruction) and tiles by word counts. non-trivial = module with >= 1 function and >= 6 instructions; distinct = hash of the assembled words.",
+            rule: "dr::Module values built directly from the public fields: header / memory model / function def / end / block label each present or absent, every section with 0-3 instructions, 0-3 functions x 0-3 blocks; every instruction carries a unique marker id and a varying word count; a quarter of the instructions carry a structural opcode (OpFunction, OpFunctionEnd, OpLabel, terminators, OpMemoryModel, OpLine ...) in whatever slot they happen to be stored; a third of the modules are sparse (most sections empty); a quarter of the instruction lists contain a run of 2-6 identical instructions. Oracle: own traversal written from the field list; all_inst_iter equals it; global_inst_iter is the prefix before the first function; Function::all_inst_iter is the k-th slice; each _mut traversal visits the same sequence and a mutation through it is seen by the read-only one at the same position; assemble() == header words ++ concat(assemble of each visited instruction) and tiles by word counts; assemble_into appends the same words; Function::assemble and Block::assemble are the corresponding slices. non-trivial = module with >= 1 function and >= 6 instructions; distinct = hash of the assembled words.",
             assumptions: vec![],
             trusted_base: vec!["own field-order traversal".into(), "proptest".into()],
         },
